@@ -12,7 +12,10 @@ theorem step_of_frame {c : Conn} {b rest : Bytes} {m : Msg} (hs : c.spool = b ++
     (c.consume b.length).spool = rest ∧
     step c =
       if m.code ≥ 224 then
-        .next (processSignaling (c.consume b.length) m).1 (processSignaling (c.consume b.length) m).2
+        if (processSignaling (c.consume b.length) m).1.closed then
+          .stop (processSignaling (c.consume b.length) m).1 (processSignaling (c.consume b.length) m).2
+        else
+          .next (processSignaling (c.consume b.length) m).1 (processSignaling (c.consume b.length) m).2
       else if c.csm.isNone then
         .stop ((c.consume b.length).note (abortOuts txtNoCsm none)) (abortOuts txtNoCsm none)
       else .next (c.consume b.length) (dispatchIncoming m) := by
@@ -39,8 +42,26 @@ def noCritical (opts : List Opt) : Prop := ∀ o ∈ opts, o.num % 2 = 0
 instance (opts : List Opt) : Decidable (noCritical opts) := by
   unfold noCritical; exact inferInstance
 
+theorem hasCritical_false_iff (opts : List Opt) : hasCritical opts = false ↔ noCritical opts := by
+  induction opts with
+  | nil => simp [hasCritical, noCritical]
+  | cons o os ih =>
+    simp only [hasCritical, noCritical, List.mem_cons, forall_eq_or_imp]
+    by_cases ho : o.num % 2 = 1
+    · simp only [ho, ↓reduceIte, Bool.true_eq_false, false_iff, not_and]
+      intro h; omega
+    · simp only [ho, ↓reduceIte, ih, noCritical]
+      constructor
+      · intro h; exact ⟨by omega, h⟩
+      · intro h; exact h.2
+
+theorem hasCritical_true_iff (opts : List Opt) : hasCritical opts = true ↔ ¬ noCritical opts := by
+  rw [← hasCritical_false_iff]
+  cases hasCritical opts <;> simp
+
+/-- without a critical option the CSM option loop runs to its end -/
 theorem csmOpts_noCritical (s : Settings) {opts : List Opt} (h : noCritical opts) :
-    (csmOpts s opts).2 = [] := by
+    (csmOpts s opts).2 = none := by
   induction opts generalizing s with
   | nil => rfl
   | cons o os ih =>
@@ -55,20 +76,9 @@ theorem csmOpts_noCritical (s : Settings) {opts : List Opt} (h : noCritical opts
         simp only [this, ↓reduceIte]
         exact ih _ hos
 
-theorem otherOpts_noCritical {opts : List Opt} (h : noCritical opts) : otherOpts opts = [] := by
-  induction opts with
-  | nil => rfl
-  | cons o os ih =>
-    have ho : o.num % 2 = 0 := h o (List.mem_cons_self)
-    have : ¬ o.num % 2 = 1 := by omega
-    simp only [otherOpts, this, ↓reduceIte]
-    exact ih (fun x hx => h x (List.mem_cons_of_mem _ hx))
-
-/-- with a critical option present, the CSM option loop writes an Abort (naming that option)
-and closes, before anything else it outputs -/
+/-- with a critical option present, the CSM option loop stops at one and names it -/
 theorem csmOpts_critical (s : Settings) {opts : List Opt} (h : ¬ noCritical opts) :
-    ∃ n post, n % 2 = 1 ∧ (∃ o ∈ opts, o.num = n) ∧
-      (csmOpts s opts).2 = abortOuts txtOptNotSupported (some n) ++ post := by
+    ∃ n, n % 2 = 1 ∧ (∃ o ∈ opts, o.num = n) ∧ (csmOpts s opts).2 = some n := by
   induction opts generalizing s with
   | nil => exact absurd (fun o ho => by cases ho) h
   | cons o os ih =>
@@ -77,7 +87,7 @@ theorem csmOpts_critical (s : Settings) {opts : List Opt} (h : ¬ noCritical opt
     · have h2 : ¬ o.num = 2 := by omega
       have h4 : ¬ o.num = 4 := by omega
       simp only [h2, h4, ho, ↓reduceIte]
-      exact ⟨o.num, _, ho, ⟨o, List.mem_cons_self, rfl⟩, rfl⟩
+      exact ⟨o.num, ho, ⟨o, List.mem_cons_self, rfl⟩, rfl⟩
     · have hos : ¬ noCritical os := by
         intro hn
         apply h
@@ -85,34 +95,27 @@ theorem csmOpts_critical (s : Settings) {opts : List Opt} (h : ¬ noCritical opt
         rcases List.mem_cons.mp hx with rfl | hx
         · omega
         · exact hn x hx
-      have lift : ∀ s', ∃ n post, n % 2 = 1 ∧ (∃ o' ∈ o :: os, o'.num = n) ∧
-          (csmOpts s' os).2 = abortOuts txtOptNotSupported (some n) ++ post := by
+      have lift : ∀ s', ∃ n, n % 2 = 1 ∧ (∃ o' ∈ o :: os, o'.num = n) ∧
+          (csmOpts s' os).2 = some n := by
         intro s'
-        obtain ⟨n, post, h1, ⟨o', ho', hn⟩, h3⟩ := ih s' hos
-        exact ⟨n, post, h1, ⟨o', List.mem_cons_of_mem _ ho', hn⟩, h3⟩
+        obtain ⟨n, h1, ⟨o', ho', hn⟩, h3⟩ := ih s' hos
+        exact ⟨n, h1, ⟨o', List.mem_cons_of_mem _ ho', hn⟩, h3⟩
       by_cases h2 : o.num = 2
       · simp only [h2, ↓reduceIte]; exact lift _
       · by_cases h4 : o.num = 4
         · simp only [h4, ↓reduceIte]; exact lift _
         · simp only [h2, h4, ho, ↓reduceIte]; exact lift _
 
-theorem otherOpts_critical {opts : List Opt} (h : ¬ noCritical opts) :
-    ∃ post, otherOpts opts = abortOuts txtUnknownCritical none ++ post := by
-  induction opts with
-  | nil => exact absurd (fun o ho => by cases ho) h
-  | cons o os ih =>
-    simp only [otherOpts]
-    by_cases ho : o.num % 2 = 1
-    · simp only [ho, ↓reduceIte]
-      exact ⟨_, rfl⟩
-    · simp only [ho, ↓reduceIte]
-      apply ih
-      intro hn
-      apply h
-      intro x hx
-      rcases List.mem_cons.mp hx with rfl | hx
-      · omega
-      · exact hn x hx
+/-- the CSM option loop rejects exactly when there is a critical option -/
+theorem csmOpts_none_iff (s : Settings) (opts : List Opt) :
+    (csmOpts s opts).2 = none ↔ noCritical opts := by
+  constructor
+  · intro h
+    apply Classical.byContradiction
+    intro hn
+    obtain ⟨n, _, _, h3⟩ := csmOpts_critical s hn
+    rw [h] at h3; cases h3
+  · exact csmOpts_noCritical s
 
 -- ---------------------------------------------------------------------------------------------
 -- nothing but the dispatch branch hands messages to the token manager
@@ -130,122 +133,93 @@ theorem abortOuts_no_dispatch (t : Bytes) (bad : Option Nat) :
   · exact sendMessage_no_dispatch _ o ho
   · rfl
 
-theorem csmOpts_no_dispatch (s : Settings) (opts : List Opt) :
-    ∀ o ∈ (csmOpts s opts).2, o.isDispatch = false := by
-  induction opts generalizing s with
-  | nil => intro o ho; cases ho
-  | cons x xs ih =>
-    simp only [csmOpts]
-    split
-    · exact ih _
-    · split
-      · exact ih _
-      · split
-        · intro o ho
-          simp only [List.mem_append] at ho
-          rcases ho with ho | ho
-          · exact abortOuts_no_dispatch _ _ o ho
-          · exact ih _ o ho
-        · exact ih _
-
-theorem otherOpts_no_dispatch (opts : List Opt) : ∀ o ∈ otherOpts opts, o.isDispatch = false := by
-  induction opts with
-  | nil => intro o ho; cases ho
-  | cons x xs ih =>
-    simp only [otherOpts]
-    split
-    · intro o ho
-      simp only [List.mem_append] at ho
-      rcases ho with ho | ho
-      · exact abortOuts_no_dispatch _ _ o ho
-      · exact ih o ho
-    · exact ih
+theorem sigOuts_no_dispatch {c : Conn} {m : Msg} {outs : List Out} (h : SigOuts c m outs) :
+    ∀ o ∈ outs, o.isDispatch = false := by
+  cases h with
+  | csmBad s n => exact abortOuts_no_dispatch _ _
+  | crit => exact abortOuts_no_dispatch _ _
+  | unknown => exact abortOuts_no_dispatch _ _
+  | pong => exact sendMessage_no_dispatch _
+  | none => intro o ho; cases ho
+  | release =>
+    intro o ho
+    simp only [List.mem_cons, List.not_mem_nil, or_false] at ho
+    rcases ho with rfl | rfl <;> rfl
+  | abort =>
+    intro o ho
+    simp only [List.mem_cons, List.not_mem_nil, or_false] at ho
+    rcases ho with rfl | rfl <;> rfl
 
 theorem processSignaling_no_dispatch (c : Conn) (m : Msg) :
     ∀ o ∈ (processSignaling c m).2, o.isDispatch = false := by
-  unfold processSignaling
-  split
-  · exact csmOpts_no_dispatch _ _
-  · split
-    · intro o ho
-      simp only [List.mem_append] at ho
-      rcases ho with ho | ho
-      · exact otherOpts_no_dispatch _ o ho
-      · exact sendMessage_no_dispatch _ o ho
-    · split
-      · exact otherOpts_no_dispatch _
-      · split
-        · intro o ho
-          simp only [List.mem_append, List.mem_cons, List.not_mem_nil, or_false] at ho
-          rcases ho with ho | rfl | rfl
-          · exact otherOpts_no_dispatch _ o ho
-          · rfl
-          · rfl
-        · split
-          · intro o ho
-            simp only [List.mem_append, List.mem_cons, List.not_mem_nil, or_false] at ho
-            rcases ho with ho | rfl | rfl
-            · exact otherOpts_no_dispatch _ o ho
-            · rfl
-            · rfl
-          · exact abortOuts_no_dispatch _ _
+  rcases processSignaling_cases c m with ⟨s, _, _, h⟩ | ⟨outs, h, hso⟩ <;> rw [h]
+  · intro o ho; cases ho
+  · exact sigOuts_no_dispatch hso
 
-/-- the remote settings appear only through a CSM and never disappear -/
+/-- the remote settings never disappear, and they change only through a CSM all of whose
+options were accepted (which outputs nothing) -/
 theorem processSignaling_csm (c : Conn) (m : Msg) :
-    ((processSignaling c m).1.csm = none → c.csm = none ∧ m.code ≠ codeCSM) ∧
-    (m.code ≠ codeCSM → (processSignaling c m).1.csm = c.csm) := by
-  unfold processSignaling
-  split
-  · rename_i h
-    exact ⟨fun h' => by simp at h', fun h' => absurd h h'⟩
-  · rename_i h
-    split
-    · exact ⟨fun h' => ⟨h', h⟩, fun _ => rfl⟩
-    · split
-      · exact ⟨fun h' => ⟨h', h⟩, fun _ => rfl⟩
-      · split
-        · exact ⟨fun h' => ⟨h', h⟩, fun _ => rfl⟩
-        · split
-          · exact ⟨fun h' => ⟨h', h⟩, fun _ => rfl⟩
-          · exact ⟨fun h' => ⟨h', h⟩, fun _ => rfl⟩
+    ((processSignaling c m).1.csm = none → c.csm = none) ∧
+    ((m.code = codeCSM ∧ noCritical m.opts ∧ (processSignaling c m).2 = []) ∨
+      (processSignaling c m).1.csm = c.csm) := by
+  rcases processSignaling_cases c m with ⟨s, h1, h2, h⟩ | ⟨outs, h, _⟩ <;> rw [h]
+  · refine ⟨fun h' => by simp at h', Or.inl ⟨h1, ?_, rfl⟩⟩
+    exact (csmOpts_none_iff _ _).mp (by rw [h2])
+  · exact ⟨fun h' => h', Or.inr rfl⟩
 
 -- ---------------------------------------------------------------------------------------------
 -- nothing is dispatched while the remote settings are unset
 
 theorem step_csm (c : Conn) :
-    (∀ c' o, step c = .next c' o →
+    ∀ c' o, (step c = .next c' o ∨ step c = .stop c' o) →
       (c'.csm = none → c.csm = none ∧ ∀ x ∈ o, x.isDispatch = false) ∧
-      (c.csm ≠ none → c'.csm ≠ none)) ∧
-    (∀ c' o, step c = .stop c' o → c'.csm = c.csm ∧ ∀ x ∈ o, x.isDispatch = false) := by
+      (c.csm ≠ none → c'.csm ≠ none) := by
+  intro c' o hstep
+  have sig : ∀ n m, (processSignaling (c.consume n) m).1 = c' →
+      (processSignaling (c.consume n) m).2 = o →
+      (c'.csm = none → c.csm = none ∧ ∀ x ∈ o, x.isDispatch = false) ∧
+      (c.csm ≠ none → c'.csm ≠ none) := by
+    intro n m h1 h2
+    subst h1 h2
+    obtain ⟨p1, _⟩ := processSignaling_csm (c.consume n) m
+    exact ⟨fun hn => ⟨p1 hn, processSignaling_no_dispatch _ _⟩, fun hc hn => hc (p1 hn)⟩
+  have ab : ∀ (c0 : Conn) t, c0.csm = c.csm → c0.note (abortOuts t none) = c' →
+      abortOuts t none = o →
+      (c'.csm = none → c.csm = none ∧ ∀ x ∈ o, x.isDispatch = false) ∧
+      (c.csm ≠ none → c'.csm ≠ none) := by
+    intro c0 t h0 h1 h2
+    subst h1 h2
+    simp only [Conn.note_csm, h0]
+    exact ⟨fun hn => ⟨hn, abortOuts_no_dispatch _ _⟩, fun hc => hc⟩
   rcases step_cases c with ⟨hw, _⟩ | ⟨_, _, _, _, _, hs⟩ | ⟨_, _, _, _, _, _, _, hs⟩ |
-    ⟨to, tkl, len, m, _, _, _, _, ⟨h3, hs⟩ | ⟨h3, h4, hs⟩ | ⟨h3, h4, hs⟩⟩
-  · rw [hw]; exact ⟨(fun _ _ h => by cases h), (fun _ _ h => by cases h)⟩
-  · rw [hs]
-    refine ⟨(fun _ _ h => by cases h), fun c' o h => ?_⟩
-    simp only [Step.stop.injEq] at h
-    rw [← h.1, ← h.2]
-    exact ⟨rfl, abortOuts_no_dispatch _ _⟩
-  · rw [hs]
-    refine ⟨(fun _ _ h => by cases h), fun c' o h => ?_⟩
-    simp only [Step.stop.injEq] at h
-    rw [← h.1, ← h.2]
-    exact ⟨rfl, abortOuts_no_dispatch _ _⟩
-  · rw [hs]
-    refine ⟨fun c' o h => ?_, (fun _ _ h => by cases h)⟩
-    simp only [Step.next.injEq] at h
-    rw [← h.1, ← h.2]
-    obtain ⟨p1, p2⟩ := processSignaling_csm (c.consume (to + tkl + len)) m
-    refine ⟨fun hn => ⟨(p1 hn).1, processSignaling_no_dispatch _ _⟩, fun hc hn => hc (p1 hn).1⟩
-  · rw [hs]
-    refine ⟨(fun _ _ h => by cases h), fun c' o h => ?_⟩
-    simp only [Step.stop.injEq] at h
-    rw [← h.1, ← h.2]
-    exact ⟨rfl, abortOuts_no_dispatch _ _⟩
-  · rw [hs]
-    refine ⟨fun c' o h => ?_, (fun _ _ h => by cases h)⟩
-    simp only [Step.next.injEq] at h
-    rw [← h.1]
-    exact ⟨fun hn => absurd hn h4, fun hc => hc⟩
+    ⟨to, tkl, len, m', _, _, _, _, ⟨_, _, hs⟩ | ⟨_, _, hs⟩ | ⟨_, _, hs⟩ | ⟨_, h4, hs⟩⟩
+  · rw [hw] at hstep; rcases hstep with h | h <;> cases h
+  · rw [hs] at hstep
+    rcases hstep with h | h
+    · cases h
+    · simp only [Step.stop.injEq] at h; exact ab c _ rfl h.1 h.2
+  · rw [hs] at hstep
+    rcases hstep with h | h
+    · cases h
+    · simp only [Step.stop.injEq] at h; exact ab c _ rfl h.1 h.2
+  · rw [hs] at hstep
+    rcases hstep with h | h
+    · cases h
+    · simp only [Step.stop.injEq] at h; exact sig _ _ h.1 h.2
+  · rw [hs] at hstep
+    rcases hstep with h | h
+    · simp only [Step.next.injEq] at h; exact sig _ _ h.1 h.2
+    · cases h
+  · rw [hs] at hstep
+    rcases hstep with h | h
+    · cases h
+    · simp only [Step.stop.injEq] at h; exact ab (c.consume _) _ rfl h.1 h.2
+  · rw [hs] at hstep
+    rcases hstep with h | h
+    · simp only [Step.next.injEq] at h
+      rw [← h.1]
+      exact ⟨fun hn => absurd hn h4, fun hc => hc⟩
+    · cases h
 
 theorem drain_csm : ∀ (n : Nat) (c : Conn), c.spool.length < n →
     ((drain c).1.csm = none → c.csm = none ∧ ∀ x ∈ (drain c).2.1, x.isDispatch = false) ∧
@@ -262,14 +236,13 @@ theorem drain_csm : ∀ (n : Nat) (c : Conn), c.spool.length < n →
       exact ⟨fun h => ⟨h, fun x hx => by cases hx⟩, fun h => h⟩
     | stop c' o =>
       have hd : drain c = (c', o, true) := by rw [drain_eq, hs]
-      obtain ⟨h1, h2⟩ := (step_csm c).2 c' o hs
       rw [hd]
-      exact ⟨fun h => ⟨h1 ▸ h, h2⟩, fun h => h1 ▸ h⟩
+      exact step_csm c c' o (Or.inr hs)
     | next c' o =>
       have hlt' := (step_next_lt hs).1
       have hd : drain c = ((drain c').1, o ++ (drain c').2.1, (drain c').2.2) := by
         rw [drain_eq, hs]
-      obtain ⟨h1, h2⟩ := (step_csm c).1 c' o hs
+      obtain ⟨h1, h2⟩ := step_csm c c' o (Or.inl hs)
       obtain ⟨i1, i2⟩ := ih c' (by omega)
       rw [hd]
       refine ⟨fun h => ?_, fun h => i2 (h2 h)⟩
